@@ -174,13 +174,20 @@ func paths(v any, prefix []string, out *[][]string) {
 	}
 }
 
+func repoRoot() string {
+	if r := os.Getenv("VERIF_REPO"); r != "" {
+		return r
+	}
+	return "/repo"
+}
+
 var litRe = regexp.MustCompile(`"([a-z][a-z0-9_]*)"`)
 
 // literalKeys returns, per step N, the string literals of vN.go (the keys the
 // step may read or write).
 func literalKeys() map[int][]string {
 	res := map[int][]string{}
-	dir := "/repo/internal/configmigrate"
+	dir := repoRoot() + "/internal/configmigrate"
 	ents, _ := os.ReadDir(dir)
 	for _, e := range ents {
 		n := e.Name()
@@ -205,7 +212,7 @@ func literalKeys() map[int][]string {
 
 func loadBases() []baseDoc {
 	var out []baseDoc
-	dir := "/repo/internal/configmigrate/testdata/TestMigrateConfig_Migrate"
+	dir := repoRoot() + "/internal/configmigrate/testdata/TestMigrateConfig_Migrate"
 	ents, _ := os.ReadDir(dir)
 	for _, e := range ents {
 		data, err := os.ReadFile(filepath.Join(dir, e.Name(), "input.yml"))
